@@ -48,6 +48,8 @@ def classify(events, pos):
     plan = events[0]
     mode = plan.get("mode", "pipe")
     if ev["e"] == "ret":
+        if ev.get("elapsed_ms", 0) > ev.get("budget_ms", 10 ** 9):
+            return "ret/not-prompt-after-failure"
         if ev.get("leaked"):
             return "ret/goroutine-left-behind"
         started = {e["seg"] for e in events[:pos] if e["e"] == "dstart"}
